@@ -1,0 +1,98 @@
+//go:build verif
+
+package pubsub
+
+import (
+	"sort"
+
+	"github.com/anyproto/any-sync/net/streampool"
+)
+
+// VerifStreamInterest is the serving-side record of one inbound stream.
+type VerifStreamInterest struct {
+	Account string
+	BySpace map[string][]string // spaceId -> sorted patterns
+	Total   int
+}
+
+// VerifPubSubState is a snapshot of the engine's interest bookkeeping for the simulator.
+type VerifPubSubState struct {
+	Pool      streampool.StreamPool
+	Remote    map[string]map[string]int // spaceId -> pattern -> refcount, read from the trie terminals
+	RemoteLen map[string]int            // spaceId -> trie.Len()
+	Streams   map[uint32]VerifStreamInterest
+	Local     map[string]map[string]int // spaceId -> pattern -> number of handlers
+	LocalLen  map[string]int            // spaceId -> local trie.Len()
+	LocalCap  map[string]int            // spaceId -> localTopic counter
+}
+
+func verifTrieDump(level *trieLevel, out map[string]int) {
+	if level == nil {
+		return
+	}
+	visit := func(n *trieNode) {
+		if n == nil {
+			return
+		}
+		if n.refs > 0 {
+			out[n.pattern] += n.refs
+		}
+		verifTrieDump(n.next, out)
+	}
+	visit(level.pwc)
+	visit(level.fwc)
+	for _, n := range level.nodes {
+		visit(n)
+	}
+}
+
+// VerifState returns the snapshot; ok is false when svc is not this package's engine.
+func VerifState(svc Service) (st VerifPubSubState, ok bool) {
+	s, ok := svc.(*service)
+	if !ok {
+		return
+	}
+	st.Pool = s.pool
+	st.Remote = map[string]map[string]int{}
+	st.RemoteLen = map[string]int{}
+	st.Streams = map[uint32]VerifStreamInterest{}
+	st.Local = map[string]map[string]int{}
+	st.LocalLen = map[string]int{}
+	st.LocalCap = map[string]int{}
+	s.remoteMu.Lock()
+	for spaceId, si := range s.remote {
+		m := map[string]int{}
+		verifTrieDump(si.trie.root, m)
+		st.Remote[spaceId] = m
+		st.RemoteLen[spaceId] = si.trie.Len()
+	}
+	for id, strm := range s.streams {
+		v := VerifStreamInterest{Account: strm.account, BySpace: map[string][]string{}, Total: strm.total}
+		for spaceId, patterns := range strm.bySpace {
+			l := make([]string, 0, len(patterns))
+			for p := range patterns {
+				l = append(l, p)
+			}
+			sort.Strings(l)
+			v.BySpace[spaceId] = l
+		}
+		st.Streams[id] = v
+	}
+	s.remoteMu.Unlock()
+	s.localMu.Lock()
+	for spaceId, subs := range s.localSubs {
+		m := map[string]int{}
+		for p, l := range subs {
+			m[p] = len(l)
+		}
+		st.Local[spaceId] = m
+	}
+	for spaceId, t := range s.localTrie {
+		st.LocalLen[spaceId] = t.Len()
+	}
+	for spaceId, n := range s.localTopic {
+		st.LocalCap[spaceId] = n
+	}
+	s.localMu.Unlock()
+	return st, true
+}
